@@ -145,7 +145,28 @@ mutual
         match evalE M obj env c out with
         | (.error e, o) => (.error e, o)
         | (.ok cv, o) => if cv.truthy then evalE M obj env t o else evalE M obj env f o
+    | .hashLit pairs, out =>
+        -- keys and values in written order (the pairs are in the compiler's order), then OpHash
+        match evalPs M obj env pairs out with
+        | (.ok kvs, o) =>
+          (match buildHash (kvs.length + 1) kvs.reverse [] with
+           | .ok ps => (.ok (.hash ps), o)
+           | .error e => (.error e, o))
+        | (.error e, o) => (.error e, o)
     | _, out => (.error .unsupported, out)
+  /-- the keys and values of a hash literal, in the order they are pushed: k1, v1, k2, v2, … -/
+  def evalPs (M : Machine) (obj : HostVal) (env : Env) : List Pair → Str → Except Err (List Value) × Str
+    | [], out => (.ok [], out)
+    | .mk k v :: ps, out =>
+        match evalE M obj env k out with
+        | (.error x, o) => (.error x, o)
+        | (.ok kv, o1) =>
+          match evalE M obj env v o1 with
+          | (.error x, o) => (.error x, o)
+          | (.ok vv, o2) =>
+            match evalPs M obj env ps o2 with
+            | (.error x, o') => (.error x, o')
+            | (.ok rest, o') => (.ok (kv :: vv :: rest), o')
   def evalEs (M : Machine) (obj : HostVal) (env : Env) : List Expr → Str → Except Err (List Value) × Str
     | [], out => (.ok [], out)
     | e :: es, out =>
@@ -158,6 +179,11 @@ mutual
 end
 
 
+/-- the pairs of a hash literal stand in the order the compiler emits them (by key text, then value
+    text): what `normExpr` makes of every hash literal -/
+def pairsSorted (pairs : List Pair) : Bool :=
+  decide ((normPairs pairs).Pairwise (fun a b => (!(pairLt b a)) = true))
+
 mutual
   /-- the value-producing fragment: literals, identifiers/fields, prefix and binary operators, index,
       range, array literals, the ternary -/
@@ -168,7 +194,11 @@ mutual
     | .index l i => pureE l && pureE i
     | .arrayLit els => pureEs els
     | .ternary c t f => pureE c && pureE t && pureE f
+    | .hashLit pairs => purePs pairs && pairsSorted pairs
     | _ => false
+  def purePs : List Pair → Bool
+    | [] => true
+    | .mk k v :: ps => pureE k && pureE v && purePs ps
   def pureEs : List Expr → Bool
     | [] => true
     | e :: es => pureE e && pureEs es
@@ -287,6 +317,28 @@ theorem step_array (arg : Nat) (vs : List Value) (h : vs.length = arg) :
       rw [← h]; simp
     rw [h1, h2]; simp
   simp [hp]
+theorem step_hash (arg : Nat) (kvs : List Value) (h : kvs.length = arg) (he : arg % 2 = 0) :
+    step M obj len rb Op.hash.toNat arg next (kvs.reverse ++ stack) st =
+      (match buildHash (kvs.length + 1) kvs.reverse [] with
+       | .ok ps => .cont next (.hash ps :: stack) st
+       | .error e => .halt (.error e) st) := by
+  have : Op.ofNat? Op.hash.toNat = some .hash := rfl
+  simp only [step, this, isBinary]
+  have h2 : 2 * ((arg + 1) / 2) = arg := by omega
+  have hp : popN (2 * ((arg + 1) / 2)) (kvs.reverse ++ stack) = some (kvs, stack) := by
+    rw [h2]
+    unfold popN
+    have : ¬ ((kvs.reverse ++ stack).length < arg) := by simp; omega
+    simp only [this, ↓reduceIte]
+    have h1 : (kvs.reverse ++ stack).take arg = kvs.reverse := by
+      rw [← h]; simp
+    have h3 : (kvs.reverse ++ stack).drop arg = stack := by
+      rw [← h]; simp
+    rw [h1, h3]; simp
+  simp only [Bool.false_eq_true, ↓reduceIte, hp]
+  cases buildHash (kvs.length + 1) kvs.reverse [] <;> rfl
+
+
 end steps
 
 
@@ -320,6 +372,22 @@ theorem evalEs_length (M : Machine) (obj : HostVal) (env : Env) :
         cases h
         simp [evalEs_length M obj env es _ _ _ heq]
 
+theorem evalPs_length (M : Machine) (obj : HostVal) (env : Env) :
+    ∀ (ps : List Pair) (out : Str) (vs : List Value) (o : Str), evalPs M obj env ps out = (.ok vs, o) → vs.length = ps.length * 2
+  | [], out, vs, o, h => by simp [evalPs] at h; rw [h.1]; rfl
+  | .mk k v :: ps, out, vs, o, h => by
+    simp only [evalPs] at h
+    split at h
+    · cases h
+    · split at h
+      · cases h
+      · split at h
+        · cases h
+        · rename_i heq
+          cases h
+          have := evalPs_length M obj env ps _ _ _ heq
+          simp only [List.length_cons]; omega
+
 mutual
   theorem pure_size_pos : ∀ (e : Expr), pureE e = true → 1 ≤ e.size
     | .boolLit _, _ | .intLit _ _, _ | .floatLit _ _, _ | .strLit _, _ | .regexpLit _ _ _, _ | .ident _, _ => by simp [Expr.size]
@@ -328,6 +396,15 @@ mutual
     | .index l i, _ => by simp [Expr.size]
     | .arrayLit els, _ => by simp [Expr.size]
     | .ternary c t f, _ => by simp [Expr.size]
+    | .hashLit ps, _ => by simp [Expr.size]
+  theorem purePs_length_le : ∀ (ps : List Pair), purePs ps = true → ps.length * 2 ≤ Pair.sizes ps
+    | [], _ => by simp [Pair.sizes]
+    | .mk k v :: ps, h => by
+      simp only [purePs, Bool.and_eq_true] at h
+      have := pure_size_pos k h.1.1
+      have := pure_size_pos v h.1.2
+      have := purePs_length_le ps h.2
+      simp only [List.length_cons, Pair.sizes]; omega
   theorem pures_length_le : ∀ (es : List Expr), pureEs es = true → es.length ≤ Expr.sizes es
     | [], _ => by simp [Expr.sizes]
     | e :: es, h => by
@@ -372,6 +449,11 @@ def CorrectL (M : Machine) (obj : HostVal) (code : Bytes) (es : List Expr) (base
   ∀ (stack : List Value) (env : Env) (out : Str) (polls depth : Nat), ∃ n k, ∀ fuel,
     loop M obj code (fuel + n) base stack ⟨env, out, polls, depth⟩ =
       afterL M obj code fuel (base + Expr.sizes es) stack env (polls + k) depth (evalEs M obj env es out)
+
+def CorrectP (M : Machine) (obj : HostVal) (code : Bytes) (ps : List Pair) (base : Nat) : Prop :=
+  ∀ (stack : List Value) (env : Env) (out : Str) (polls depth : Nat), ∃ n k, ∀ fuel,
+    loop M obj code (fuel + n) base stack ⟨env, out, polls, depth⟩ =
+      afterL M obj code fuel (base + Pair.sizes ps) stack env (polls + k) depth (evalPs M obj env ps out)
 
 /-- a leaf that is one pool constant -/
 theorem leaf_constant (M : Machine) (obj : HostVal) (code : Bytes) (ctx : Ctx M code) (base : Nat) (cst : CState) (v : Value)
@@ -673,6 +755,43 @@ mutual
           intro fuel
           rw [step_array M obj _ _ _ _ _ els.length vs (evalEs_length M obj env els out vs o1 hev)]
           simp [after, evalE, hev, hsz, Instr.size, Op.length, Nat.add_assoc]
+    | .hashLit pairs, base, cst, r, hpure, h => by
+      simp only [compileExpr, bind_ok_eq, pure, Except.pure] at h
+      obtain ⟨⟨c, st1⟩, h1, h2⟩ := h
+      cases h2
+      simp only [pureE, Bool.and_eq_true] at hpure
+      intro M obj code ctx hc hp stack env out polls depth
+      have s1 := compilePairs_size pairs base cst _ h1
+      simp only at s1
+      have hc2 : CodeAt code (base + Pair.sizes pairs) [⟨.hash, pairs.length * 2⟩] := by have := hc.right; rwa [s1] at this
+      have hsz : (Expr.hashLit pairs).size = Pair.sizes pairs + 3 := rfl
+      obtain ⟨n1, k1, ih1⟩ := pairs_ok pairs base cst _ hpure.1 h1 M obj code ctx hc.left hp stack env out polls depth
+      have hlenlt : pairs.length * 2 < 65536 := by
+        have h1 := purePs_length_le pairs hpure.1
+        have h2 := hc.bound
+        rw [codeSize_append, s1] at h2
+        simp only [codeSize_cons, codeSize_nil, Instr.size, Op.length] at h2
+        have := ctx.len; omega
+      have harg : storedArg ⟨.hash, pairs.length * 2⟩ = pairs.length * 2 := by
+        show (if Op.hash.length = 3 then (pairs.length * 2) % 65536 else 0) = pairs.length * 2
+        rw [if_pos (by rfl : Op.hash.length = 3), Nat.mod_eq_of_lt hlenlt]
+      cases hev : evalPs M obj env pairs out with
+      | mk res o1 =>
+        cases res with
+        | error e =>
+          refine ⟨n1, k1, fun fuel => ?_⟩
+          rw [ih1 fuel, hev]; simp [afterL, after, evalE, hev]
+        | ok kvs =>
+          have hrun : ∀ fuel, loop M obj code (fuel + n1) base stack ⟨env, out, polls, depth⟩ =
+              loop M obj code fuel (base + Pair.sizes pairs) (kvs.reverse ++ stack) ⟨env, o1, polls + k1, depth⟩ := by
+            intro fuel; rw [ih1 fuel, hev]; rfl
+          refine ⟨1 + n1, k1 + 1, ?_⟩
+          apply finish_instr hrun hc2 ctx.nd (Or.inl harg) (pairs.length * 2) harg.symm
+          intro fuel
+          rw [step_hash M obj _ _ _ _ _ (pairs.length * 2) kvs (evalPs_length M obj env pairs out kvs o1 hev) (by omega)]
+          cases hb : buildHash (kvs.length + 1) kvs.reverse [] with
+          | ok ps => simp [after, evalE, hev, hb, hsz, Instr.size, Op.length, Nat.add_assoc]
+          | error e => simp [after, evalE, hev, hb, Nat.add_assoc]
     | .ternary c t f, base, cst, r, hpure, h => by
       simp only [compileExpr, bind_ok_eq, pure, Except.pure] at h
       obtain ⟨⟨cc, st1⟩, h1, ⟨ct, st2⟩, h2, ⟨cf, st3⟩, h3, h4⟩ := h
@@ -828,6 +947,67 @@ mutual
             cases res2 with
             | error x => simp [afterL, evalEs, hev1, hev2, Nat.add_assoc]
             | ok vs => simp [afterL, evalEs, hev1, hev2, Expr.sizes, Nat.add_assoc]
+  theorem pairs_ok : ∀ (ps : List Pair) (base : Nat) (cst : CState) (r : List Instr × CState), purePs ps = true →
+      compilePairs ps base cst = .ok r → ∀ (M : Machine) (obj : HostVal) (code : Bytes), Ctx M code →
+      CodeAt code base r.1 → (∃ ex, M.consts = r.2.consts ++ ex) → CorrectP M obj code ps base
+    | [], base, cst, r, _, h => by
+      simp only [compilePairs, pure, Except.pure] at h; cases h
+      intro M obj code ctx hc hp stack env out polls depth
+      exact ⟨0, 0, fun fuel => by simp [afterL, evalPs, Pair.sizes]⟩
+    | .mk k v :: rest, base, cst, r, hpure, h => by
+      simp only [compilePairs, bind_ok_eq, pure, Except.pure] at h
+      obtain ⟨⟨ck, st1⟩, h1, ⟨cv, st2⟩, h2, ⟨cs, st3⟩, h3, h4⟩ := h
+      cases h4
+      simp only [purePs, Bool.and_eq_true] at hpure
+      obtain ⟨⟨hpk, hpv⟩, hpr⟩ := hpure
+      intro M obj code ctx hc hp stack env out polls depth
+      have s1 := compileExpr_size k base cst _ h1
+      have s2 := compileExpr_size v _ _ _ h2
+      have r2 := compileExpr_R v _ _ _ h2
+      have r3 := compilePairs_R rest _ _ _ h3
+      simp only at s1 s2 r2 r3
+      have p2 : ∃ ex, M.consts = st2.consts ++ ex := pool_trans hp r3.ext
+      have p1 : ∃ ex, M.consts = st1.consts ++ ex := pool_trans p2 r2.ext
+      have hck : CodeAt code base ck := hc.left.left
+      have hcv : CodeAt code (base + k.size) cv := by have := hc.left.right; rwa [s1] at this
+      have hcr : CodeAt code (base + k.size + v.size) cs := by
+        have := hc.right
+        simp only [codeSize_append, s1, s2] at this
+        exact this.cast (by omega)
+      obtain ⟨n1, k1, ih1⟩ := expr_ok k base cst _ hpk h1 M obj code ctx hck p1 stack env out polls depth
+      cases hev1 : evalE M obj env k out with
+      | mk res1 o1 =>
+        cases res1 with
+        | error x =>
+          refine ⟨n1, k1, fun fuel => ?_⟩
+          rw [ih1 fuel, hev1]; simp [after, afterL, evalPs, hev1]
+        | ok kv =>
+          have hrun1 : ∀ fuel, loop M obj code (fuel + n1) base stack ⟨env, out, polls, depth⟩ =
+              loop M obj code fuel (base + k.size) (kv :: stack) ⟨env, o1, polls + k1, depth⟩ := by
+            intro fuel; rw [ih1 fuel, hev1]; rfl
+          obtain ⟨n2, k2, ih2⟩ := expr_ok v _ _ _ hpv h2 M obj code ctx hcv p2 (kv :: stack) env o1 (polls + k1) depth
+          cases hev2 : evalE M obj env v o1 with
+          | mk res2 o2 =>
+            cases res2 with
+            | error x =>
+              refine ⟨n2 + n1, k1 + k2, ?_⟩
+              apply chain hrun1 n2
+              intro fuel; rw [ih2 fuel, hev2]; simp [after, afterL, evalPs, hev1, hev2, Nat.add_assoc]
+            | ok vv =>
+              have hrun2 : ∀ fuel, loop M obj code (fuel + (n2 + n1)) base stack ⟨env, out, polls, depth⟩ =
+                  loop M obj code fuel (base + k.size + v.size) (vv :: kv :: stack) ⟨env, o2, polls + k1 + k2, depth⟩ := by
+                apply chain hrun1 n2
+                intro fuel; rw [ih2 fuel, hev2]; rfl
+              obtain ⟨n3, k3, ih3⟩ := pairs_ok rest _ _ _ hpr h3 M obj code ctx hcr hp (vv :: kv :: stack) env o2 (polls + k1 + k2) depth
+              refine ⟨n3 + (n2 + n1), k1 + k2 + k3, ?_⟩
+              apply chain hrun2 n3
+              intro fuel
+              rw [ih3 fuel]
+              cases hev3 : evalPs M obj env rest o2 with
+              | mk res3 o3 =>
+                cases res3 with
+                | error x => simp [afterL, evalPs, hev1, hev2, hev3, Nat.add_assoc]
+                | ok vs => simp [afterL, evalPs, hev1, hev2, hev3, Pair.sizes, Nat.add_assoc]
 end
 
 
@@ -845,6 +1025,17 @@ mutual
     | .ternary c t f, h => by
       simp only [pureE, Bool.and_eq_true] at h
       simp [normExpr, normExpr_pure c h.1.1, normExpr_pure t h.1.2, normExpr_pure f h.2]
+    | .hashLit ps, h => by
+      simp only [pureE, Bool.and_eq_true] at h
+      have hs : (normPairs ps).Pairwise (fun a b => (!(pairLt b a)) = true) := by
+        have := h.2; unfold pairsSorted at this; exact of_decide_eq_true this
+      simp only [normExpr]
+      rw [List.mergeSort_of_pairwise hs, normPairs_pure ps h.1]
+  theorem normPairs_pure : ∀ (ps : List Pair), purePs ps = true → (normPairs ps).map (·.2.2) = ps
+    | [], _ => rfl
+    | .mk k v :: ps, h => by
+      simp only [purePs, Bool.and_eq_true] at h
+      simp [normPairs, normExpr_pure k h.1.1, normExpr_pure v h.1.2, normPairs_pure ps h.2]
   theorem normExprs_pure : ∀ (es : List Expr), pureEs es = true → normExprs es = es
     | [], _ => rfl
     | e :: es, h => by
